@@ -422,7 +422,7 @@ impl Prop for C04Prop {
         if toks.iter().any(|t| t == "W") { tags.push("while"); }
         if toks.iter().any(|t| t == "F") { tags.push("for"); }
         if toks.iter().any(|t| t.starts_with("E") && t != "E0" && t[1..].chars().all(|c| c.is_ascii_digit())) { tags.push("elseif"); }
-        Case { req: format!("c04 {} {} 4000", toks.join(";"), vars), in_domain: true, nontrivial: deep && loops >= 1, tags }
+        Case { req: format!("c04 {} {} 200000", toks.join(";"), vars), in_domain: true, nontrivial: deep && loops >= 1, tags }
     }
     fn run_impl(&self, req: &str, model: &str) -> String {
         run_impl_structured(req, model)
